@@ -275,6 +275,43 @@ fn writer(rep: &mut Report, v: &Value) {
             (ok, _) => Err(format!("returned ok={ok}, specification says {outcome}")),
         }
     }), v);
+    // the same writer fed by trusted sources that announce a lower bound of 0 (Generators.tla Hint):
+    // element-wise / broadcast / error is decided by the length the contract fixes (the upper bound)
+    judge(rep, "write_trust_iter", &format!("{key}|src=scan"), "Vec<MaybeUninit<f64>>", catch(|| {
+        let mut u = Vec::<f64>::uninit(bl);
+        for s in u.iter_mut() {
+            s.write(-7.0);
+        }
+        let r = {
+            let mut rf = Vec::<f64>::uninit_ref_mut(&mut u);
+            items.clone().into_iter().scan((), |_, x| Some(x)).write(&mut rf)
+        };
+        let out: Vec<f64> = unsafe { u.assume_init() };
+        match (r.is_ok(), outcome) {
+            (true, "ok") => {
+                let want: Vec<f64> = src.iter().map(|i| 100.0 + *i as f64).collect();
+                if out != want { Err(format!("buffer holds {out:?}, want {want:?}")) } else { Ok(()) }
+            },
+            (false, "error") => if all_of(out.iter(), |x| *x == -7.0) { Ok(()) } else { Err(format!("length mismatch reported after partial writes: {out:?}")) },
+            (ok, _) => Err(format!("returned ok={ok}, specification says {outcome}")),
+        }
+    }), v);
+    judge(rep, "write_trust_iter", &format!("{key}|src=scan"), "VecDeque<MaybeUninit<f64>>", catch(|| {
+        let mut u = VecDeque::<f64>::uninit(bl);
+        for s in u.iter_mut() {
+            s.write(-7.0);
+        }
+        let r = items.clone().into_iter().map(|x| x + 0.0).scan(0usize, |k, x| { *k += 1; Some(x) }).write(&mut VecDeque::<f64>::uninit_ref_mut(&mut u));
+        let out: Vec<f64> = unsafe { u.assume_init() }.into_iter().collect();
+        match (r.is_ok(), outcome) {
+            (true, "ok") => {
+                let want: Vec<f64> = src.iter().map(|i| 100.0 + *i as f64).collect();
+                if out != want { Err(format!("buffer holds {out:?}, want {want:?}")) } else { Ok(()) }
+            },
+            (false, "error") => Ok(()),
+            (ok, _) => Err(format!("returned ok={ok}, specification says {outcome}")),
+        }
+    }), v);
     // the checked single-slot writer of an uninitialised buffer: inside the buffer it writes that
     // slot, outside it reports an error (and writes nothing)
     if il == 0 {
